@@ -144,11 +144,11 @@ def gen_neigh(tier, seed):
     # (n, d, field kind, number of blocks, topologies)
     plan = [(3, 2, "all", 8, "alltopo"), (3, 3, "core", 1, "alltopo"), (2, 2, "all", 1, "alltopo"), (2, 3, "all", 4, "alltopo")]
     if tier == "thorough":
-        plan += [(4, 2, "core", 1, "alltopo"), (4, 2, "all", 8, "core"), (3, 3, "all", 16, "alltopo"), (4, 3, "core", 1, "alltopo")]
+        plan += [(4, 2, "core", 1, "alltopo"), (4, 2, "all", 8, "core"), (3, 3, "all", 16, "alltopo"), (4, 3, "core", 1, "core")]
     for (n, d, kind, B, tk) in plan:
         tops = list(A.topologies(n)) if tk == "alltopo" else topo_core(n, 16)
         for nl in tops:
-            for order in ("asc", "desc"):
+            for order in (("asc", "desc") if n < 4 else ("asc",)):
                 nlo = [list(reversed(x)) if order == "desc" else list(x) for x in nl]
                 for b in range(B):
                     yield {"n": n, "d": d, "kind": kind, "B": B, "b": b, "nl": nlo, "order": order}
@@ -657,7 +657,7 @@ def subs(tier, seed):
         Sub("C15.alignment", gen_neigh, run_alignment,
             rule="ALL neighbour topologies of N=2,3" + ("" if q else ",4") + " (each particle a non-empty set of others) x both list orders x "
                  "field blocks (all of {-1,0,1}^(Nd) for (3,2),(2,2),(2,3)" + ("" if q else ",(3,3); (4,2) on 16 core topologies")
-                 + "; 5-letter core for (3,3)" + ("" if q else ",(4,2),(4,3)") + "); every particle's value compared"),
+                 + "; 5-letter core for (3,3)" + ("" if q else ",(4,2) on all 2401 topologies,(4,3) on 16 core topologies; N=4 ascending order only") + "); every particle's value compared"),
         Sub("C15.pq", gen_neigh, run_pq, rule="same enumeration; value = sum dots / sum |dots|, range [-1,1]; fields with all dots zero skipped"),
         Sub("C15.divcurl", gen_divcurl, run_divcurl,
             rule="ALL topologies of N=2,3" + ("" if q else " (N=4 with <=1 deviation)") + " x {2D,3D} x {orthogonal, triclinic} x all masks x list order; per case "
